@@ -2,6 +2,8 @@ package main
 
 import (
 	"bytes"
+	"regexp"
+	"sort"
 	"context"
 	"fmt"
 	"os"
@@ -26,14 +28,260 @@ var solvers = []solverSpec{
 	}, "(set-logic ALL)\n"},
 }
 
-// smtText renders an obligation as a complete SMT-LIB script.
+var selRe = regexp.MustCompile(`\(([A-Za-z_][A-Za-z0-9_!.$]*) `)
+var symRe = regexp.MustCompile(`[A-Za-z_][A-Za-z0-9_!.$]*`)
+
+type declCmd struct {
+	text     string
+	declares []string
+	uses     []string
+}
+
+type axiomCmd struct {
+	text     string
+	patterns [][]string // symbols of each :pattern (any pattern fully available triggers the axiom)
+	consts   []string   // for ground facts: all user symbols
+	uses     []string
+}
+
+var smtBuiltins = map[string]bool{"assert": true, "forall": true, "exists": true, "and": true, "or": true, "not": true, "ite": true, "select": true, "store": true,
+	"Int": true, "Bool": true, "Array": true, "true": true, "false": true, "mod": true, "div": true, "distinct": true, "as": true, "const": true, "let": true,
+	"declare": true, "fun": true, "define": true, "sort": true, "datatypes": true, "pattern": true, "axiom": true, "evaluated": true}
+
+func tokens(s string) []string {
+	if i := strings.Index(s, " ; "); i >= 0 {
+		s = s[:i]
+	}
+	var out []string
+	seen := map[string]bool{}
+	for _, t := range symRe.FindAllString(s, -1) {
+		if !seen[t] && !smtBuiltins[t] {
+			seen[t] = true
+			out = append(out, t)
+		}
+	}
+	return out
+}
+
+func parseDecl(line string) declCmd {
+	d := declCmd{text: line, uses: tokens(line)}
+	f := strings.Fields(line)
+	switch {
+	case strings.HasPrefix(line, "(declare-fun "), strings.HasPrefix(line, "(declare-const "), strings.HasPrefix(line, "(define-fun "), strings.HasPrefix(line, "(declare-sort "):
+		d.declares = []string{strings.Trim(f[1], "()")}
+	case strings.HasPrefix(line, "(declare-datatypes "):
+		// sort, constructor and selectors: every symbol that is not the sort of a field
+		// (declare-datatypes ((SORT 0)) (((CTOR (SEL sort) ...))))
+		i := strings.Index(line, "(((")
+		head := tokens(line[:i])
+		if len(head) > 0 {
+			d.declares = append(d.declares, head[0])
+		}
+		body := line[i+3:]
+		ct := symRe.FindString(body)
+		d.declares = append(d.declares, ct)
+		for _, m := range selRe.FindAllStringSubmatch(body[len(ct):], -1) {
+			d.declares = append(d.declares, m[1])
+		}
+	}
+	return d
+}
+
+func patternSyms(ax string) [][]string {
+	var res [][]string
+	rest := ax
+	for {
+		i := strings.Index(rest, ":pattern (")
+		if i < 0 {
+			break
+		}
+		rest = rest[i+len(":pattern ("):]
+		// up to the matching paren
+		depth, j := 1, 0
+		for j = 0; j < len(rest) && depth > 0; j++ {
+			if rest[j] == '(' {
+				depth++
+			} else if rest[j] == ')' {
+				depth--
+			}
+		}
+		res = append(res, tokens(rest[:j]))
+	}
+	return res
+}
+
+// smtText renders an obligation as a complete SMT-LIB script containing only the declarations and axioms
+// in the cone of influence of the obligation's symbols (dropping hypotheses is sound).
 func (e *Engine) smtText(o *Obligation, wantModel bool) string {
+	// parse global declarations
+	var decls []declCmd
+	for _, c := range e.d.order {
+		for _, ln := range strings.Split(c, "\n") {
+			if strings.TrimSpace(ln) != "" {
+				decls = append(decls, parseDecl(ln))
+			}
+		}
+	}
+	declared := map[string]bool{}
+	datatypeSym := map[string]bool{}
+	funcSym := map[string]bool{}
+	for _, d := range decls {
+		if strings.HasPrefix(d.text, "(declare-fun ") || strings.HasPrefix(d.text, "(define-fun ") {
+			if !strings.Contains(d.text, " () ") {
+				for _, s := range d.declares {
+					funcSym[s] = true
+				}
+			}
+		}
+	}
+	for _, d := range decls {
+		for _, s := range d.declares {
+			declared[s] = true
+			if strings.HasPrefix(d.text, "(declare-datatypes") {
+				datatypeSym[s] = true
+			}
+		}
+	}
+	var axioms []axiomCmd
+	addAx := func(text string) {
+		a := axiomCmd{text: text, uses: tokens(text)}
+		a.patterns = patternSyms(text)
+		for _, p := range a.patterns {
+			_ = p
+		}
+		for _, t := range a.uses {
+			if declared[t] && !datatypeSym[t] {
+				a.consts = append(a.consts, t)
+			}
+		}
+		axioms = append(axioms, a)
+	}
+	var gs []string
+	for g := range e.d.axioms {
+		if g == "core" || o.Groups[g] {
+			gs = append(gs, g)
+		}
+	}
+	sort.Strings(gs)
+	for _, g := range gs {
+		for _, a := range e.d.axioms[g] {
+			addAx(a)
+		}
+	}
+	for _, ln := range strings.Split(e.groundFacts(), "\n") {
+		if ln != "" {
+			addAx(ln)
+		}
+	}
+	needed := map[string]bool{}
+	for _, c := range o.Cmds {
+		for _, t := range tokens(c) {
+			needed[t] = true
+		}
+	}
+	for _, t := range tokens(o.Goal) {
+		needed[t] = true
+	}
+	inclDecl := make([]bool, len(decls))
+	inclAx := make([]bool, len(axioms))
+	for changed := true; changed; {
+		changed = false
+		for i, d := range decls {
+			if inclDecl[i] {
+				continue
+			}
+			hit := false
+			for _, s := range d.declares {
+				if needed[s] {
+					hit = true
+					break
+				}
+			}
+			if hit {
+				inclDecl[i] = true
+				changed = true
+				for _, t := range d.uses {
+					needed[t] = true
+				}
+			}
+		}
+		for i, a := range axioms {
+			if inclAx[i] {
+				continue
+			}
+			fire := false
+			if len(a.patterns) > 0 {
+				for _, p := range a.patterns {
+					all := true
+					for _, t := range p {
+						if declared[t] && !needed[t] {
+							all = false
+							break
+						}
+					}
+					if all {
+						fire = true
+						break
+					}
+				}
+			} else if strings.Contains(a.text, "; axiom global") {
+				// defining fact of a package-level constant: needed iff the constant occurs
+				for _, t := range a.consts {
+					if strings.HasPrefix(t, "G_") && needed[t] {
+						fire = true
+					}
+				}
+			} else {
+				fire = len(a.consts) > 0
+				for _, t := range a.consts {
+					if !needed[t] && !funcSym[t] {
+						fire = false
+						break
+					}
+				}
+			}
+			if fire {
+				inclAx[i] = true
+				changed = true
+				for _, t := range a.uses {
+					needed[t] = true
+				}
+			}
+		}
+	}
 	var b strings.Builder
 	b.WriteString("; obligation " + o.Name + "\n")
-	b.WriteString(e.d.text(o.Groups))
-	b.WriteString(e.strDistinct())
-	b.WriteString(e.groundFacts())
-	b.WriteString(e.errGlobalsDistinct())
+	for i, d := range decls {
+		if inclDecl[i] {
+			b.WriteString(d.text + "\n")
+		}
+	}
+	for i, a := range axioms {
+		if inclAx[i] {
+			b.WriteString(a.text + "\n")
+		}
+	}
+	// distinctness of the string literals / error globals that occur
+	var lits []string
+	for _, sym := range e.strlits {
+		if needed[sym] {
+			lits = append(lits, sym)
+		}
+	}
+	sort.Strings(lits)
+	if len(lits) > 1 {
+		b.WriteString("(assert (distinct " + strings.Join(lits, " ") + "))\n")
+	}
+	var egs []string
+	for _, g := range e.errGlobals {
+		if needed[g] {
+			egs = append(egs, "(i_ref "+g+")")
+		}
+	}
+	sort.Strings(egs)
+	if len(egs) > 1 {
+		b.WriteString("(assert (distinct " + strings.Join(egs, " ") + "))\n")
+	}
 	for _, c := range o.Cmds {
 		b.WriteString(c)
 		b.WriteByte('\n')
